@@ -2,7 +2,10 @@
 
 package vgirpc
 
-import "net/http/httptest"
+import (
+	"io"
+	"net/http/httptest"
+)
 
 // Verification hooks for property C17 (response compression negotiation).
 // Add-only; compiled in only with -tags verif.
@@ -63,4 +66,45 @@ func VerifCompressFinish(level int, encoding string, useCustomHeader bool, conte
 	}
 	cw.finish()
 	return rec
+}
+
+// ---- pooled codec writers (C17, lossless clause under overlapping responses) ----
+
+// VerifPooledWriter is a handle on the *pooledCodecWriter that the real
+// newCompressWriter returned: the real pool, the real Close, the real resetNil.
+type VerifPooledWriter struct{ p *pooledCodecWriter }
+
+// VerifNewCompressWriter is newCompressWriter (pool.Get + Reset onto w).
+func VerifNewCompressWriter(encoding string, w io.Writer, level int) (*VerifPooledWriter, error) {
+	wc, err := newCompressWriter(encoding, w, level)
+	if err != nil {
+		return nil, err
+	}
+	return &VerifPooledWriter{p: wc.(*pooledCodecWriter)}, nil
+}
+
+// Write / Close are the pooledCodecWriter's own.
+func (v *VerifPooledWriter) Write(b []byte) (int, error) { return v.p.Write(b) }
+func (v *VerifPooledWriter) Close() error                { return v.p.Close() }
+
+// WrapResetNil lets the harness run code immediately before and immediately
+// after the ORIGINAL resetNil closure, wherever Close invokes it. Nothing is
+// replaced: the original closure still runs, exactly once per invocation.
+func (v *VerifPooledWriter) WrapResetNil(before, after func()) {
+	orig := v.p.resetNil
+	v.p.resetNil = func() {
+		if before != nil {
+			before()
+		}
+		orig()
+		if after != nil {
+			after()
+		}
+	}
+}
+
+// SameCodecWriter reports whether two handles wrap the same underlying
+// gzip.Writer / zstd.Encoder (i.e. the pool handed one writer to both).
+func (v *VerifPooledWriter) SameCodecWriter(o *VerifPooledWriter) bool {
+	return v.p.WriteCloser == o.p.WriteCloser
 }
